@@ -200,22 +200,28 @@ inductive LgetRes
   | ok (v : Nat) (rest : Bytes)
   deriving DecidableEq, Repr
 
-def lgetDigits : Bytes → Nat → Option (Nat × Bytes)   -- none = overflow
-  | [], acc => some (acc, [])
+/-- `fx = true` models the reader with `repo_patches/C14-sol-reader-bounds.diff` applied
+(digit accumulation guarded against overflow); `fx = false` is the code as it is. -/
+def lgetDigits (fx : Bool) : Bytes → Nat → LgetRes
+  | [], acc => .ok acc []
   | c :: cs, acc =>
     if isDigit c then
-      if 10 * acc + c > 2147483647 then none else lgetDigits cs (10 * acc + c - 48)
-    else some (acc, c :: cs)
+      if fx then
+        (if acc > 214748363 then .fail else lgetDigits fx cs (10 * acc + (c - 48)))
+      else
+        (if 10 * acc + c > 2147483647 then .ub else lgetDigits fx cs (10 * acc + c - 48))
+    else .ok acc (c :: cs)
 
 /-- `Lget(&s, &L)`; the argument is the C string starting at `*sp` -/
-def lget (s : Bytes) : LgetRes :=
+def lget (fx : Bool) (s : Bytes) : LgetRes :=
   match s.dropWhile (· = 32) with
   | [] => .fail
   | c :: r =>
     if !isDigit c then .fail else
-    match lgetDigits r (c - 48) with
-    | none => .ub
-    | some (v, rest) =>
+    match lgetDigits fx r (c - 48) with
+    | .fail => .fail
+    | .ub => .ub
+    | .ok v rest =>
       match rest with
       | [] => .ok v rest
       | d :: r2 =>
